@@ -5,7 +5,6 @@ import (
 	"github.com/johannesboyne/gofakes3"
 	"os"
 	"path/filepath"
-	"sort"
 	"strings"
 )
 
@@ -22,7 +21,7 @@ var c10Keys = []string{
 
 // the labels an operation addressed to (bucket, key) may change
 func c10Addressed(b, k string) []string {
-	out := []string{"o|" + b + "|" + k + "\x00", "l|" + b + "|" + k + "\x00", "f|" + b + "|"}
+	out := []string{"o|" + b + "|" + k + "\x00", "l|" + b + "|" + k + "\x00", "f|" + b + "|", "b|" + b + "\x00"}
 	if t := strings.TrimLeft(k, "/"); strings.Contains(t, "/") {
 		out = append(out, "p|"+b+"|"+t[:strings.Index(t, "/")+1]+"\x00") // the common prefix the key is grouped under
 	} else if t != k {
@@ -73,10 +72,15 @@ func c10Snapshot(s *Sess, buckets []string) []string {
 	}
 	// bucket list
 	r := do(s.h, Req{Method: "GET", Path: "/"})
-	names := xmlAll(string(r.Body), "Name")
-	sort.Strings(names)
-	for _, n := range names {
-		add("b|"+n+"\x00", "bucket")
+	for _, blk := range xmlBlocks(string(r.Body), "Bucket") {
+		// a bucket is listed with the date it was created on: that is part of what the bucket "returns"
+		if ns := xmlAll(blk, "Name"); len(ns) > 0 {
+			created := ""
+			if s.kind == "mem" || s.kind == "bolt" || s.kind == "boltbin" {
+				created = " created " + strings.Join(xmlAll(blk, "CreationDate"), ",") // stored by these backends; the fs backends report a directory's modification time
+			}
+			add("b|"+ns[0]+"\x00", "bucket"+created)
+		}
 	}
 	// on-disk tree of a real directory: anything outside the per-bucket roots
 	if s.st.dir != "" && (s.kind == "fsdir" || s.kind == "sfsdir") {
